@@ -28,6 +28,56 @@ Fixpoint build (s : spec) : tr :=
   | SpCharset s0 => let t := build s0 in fst (mk_charset (height t) t [])
   end.
 
+(** ---- a concrete simplifier oracle: what Simplifier::Convert computes over an
+    OpenCC chain of one dictionary whose keys are single code points and whose
+    values are lists of single code points (tips off, no excluded types, not
+    random).  A one-character text with an entry: Opencc::ConvertWord succeeds
+    with the de-duplicated values, a value equal to the text re-queues the
+    original, the others become ShadowCandidates with that text.  Any other
+    text: ConvertWord fails, ConvertText maps every character to its default
+    (first) value and succeeds iff the text changed. ---- *)
+Definition sdict := list (N * list N).
+
+Fixpoint dict_find (d : sdict) (k : N) : option (list N) :=
+  match d with [] => None | (k', v) :: r => if N.eqb k' k then Some v else dict_find r k end.
+
+Fixpoint dedupN (seen l : list N) : list N :=
+  match l with
+  | [] => []
+  | x :: r => if existsb (N.eqb x) seen then dedupN seen r else x :: dedupN (x :: seen) r
+  end.
+
+Definition with_text (c : cand) (t : text) : cand :=
+  mkCand t (c_comment c) (c_type c) (c_start c) (c_end c) (c_quality c) (c_uniq c).
+
+Definition default_of (d : sdict) (k : N) : N :=
+  match dict_find d k with Some (v :: _) => v | _ => k end.
+
+Definition dict_conv (d : sdict) (c : cand) : option (cand * list cand) :=
+  let single :=
+    match c_text c with
+    | [k] => match dict_find d k with
+             | Some vs => match dedupN [] vs with
+                          | v :: r => Some (with_text c [v], map (fun x => with_text c [x]) r)
+                          | [] => None
+                          end
+             | None => None
+             end
+    | _ => None
+    end in
+  match single with
+  | Some r => Some r
+  | None =>
+      let t' := map (default_of d) (c_text c) in
+      if text_eqb t' (c_text c) then None else Some (with_text c t', [])
+  end.
+
+(** two fixed dictionaries (the check writes them out as OpenCC text dictionaries for the real Simplifier) *)
+Definition dict_a : sdict :=
+  [(0x4E01, [0x4E00]); (0x4E8C, [0x4E8C; 0x4E00]); (66, [65]); (0x3400, [0x4E00]); (68, [67; 65; 68])]%N.
+Definition dict_b : sdict :=
+  [(0x4E00, [0x4E01]); (65, [66; 65]); (0x4DC0, [0x4DBF])]%N.
+
 Definition menu_of (specs : list spec) (fs : list filt) : menu := build_menu (map build specs) fs.
 
 Definition run_case (ps : nat) (specs : list spec) (fs : list filt) (ops : list op) : list obs :=
